@@ -94,6 +94,46 @@ class Check:
         self.harness = out
         return out
 
+    def run_worker(self, driver, args, out_name=None, timeout=1800, seed=None, mem_kb=8000000):
+        """Runs an isolated-worker driver (writes a flushed "begin" line before each case). If the worker
+        process dies, the case it was executing is recorded with outcome "abort" and the worker is
+        restarted behind it. Returns (trace path, stats)."""
+        import resource
+        h = self.build_harness()
+        out = os.path.join(self.scratch, out_name or ("%s.ndjson" % driver))
+        if os.path.exists(out):
+            os.remove(out)
+        frm, aborts, t = 0, 0, time.time()
+        only = "-only" in [str(a) for a in args]
+        for _restart in range(30):
+            cmd = [h, driver, "-seed", str(self.seed if seed is None else seed), "-tier", self.tier, "-out", out,
+                   "-append", "-from", str(frm)] + [str(a) for a in args]
+            try:
+                p = subprocess.run(cmd, capture_output=True, text=True, timeout=timeout,
+                                   preexec_fn=lambda: resource.setrlimit(resource.RLIMIT_AS, (mem_kb * 1024, mem_kb * 1024)))
+            except subprocess.TimeoutExpired:
+                raise ToolError("worker %s exceeded its watchdog (%ss) - too slow or hung; not judged" % (driver, timeout))
+            if p.returncode == 0:
+                break
+            lines = open(out).read().splitlines() if os.path.exists(out) else []
+            if lines and not lines[-1].endswith("}"):
+                lines = lines[:-1]   # a partially written line
+            last = json.loads(lines[-1]) if lines else None
+            if not last or last.get("ev") != "begin":
+                raise ToolError("worker %s died outside a case (exit %s): %s" % (driver, p.returncode, p.stderr[-1500:]))
+            ab = dict(last)
+            ab.update(ev="alloc" if driver == "alloc" else "result", variant=1, outcome="abort", ok=False, alloc_kb=0, ms=0,
+                      exit=p.returncode, stderr_head=p.stderr[:300])
+            lines.append(json.dumps(ab))
+            open(out, "w").write("\n".join(lines) + "\n")
+            aborts += 1
+            frm = last["case"] + 1
+            if only:
+                break
+        else:
+            raise ToolError("worker %s died too often" % driver)
+        return out, {"worker_aborts": aborts, "_wall_s": round(time.time() - t, 2)}
+
     def run_harness(self, driver, args, out_name=None, timeout=1800, seed=None, env=None):
         """Runs a harness driver; returns (trace path, stats dict)."""
         h = self.build_harness()
@@ -183,10 +223,13 @@ class Check:
                (" VIOLATED " + r.violated) if r.violated else ""))
 
     def trace(self, label, driver, dargs, module, cfg, props, agree=(), files_extra=(), timeout=1800,
-              nontrivial=None, key=None, driver_env=None, trace_path=None, stats=None, workers=16, heap="12g"):
+              nontrivial=None, key=None, driver_env=None, trace_path=None, stats=None, workers=16, heap="12g",
+              consts_extra=None, worker=False):
         """Go -> TLC: run a driver against the real code, then let TLC check every recorded event.
         props: invariants whose failure is a violation of the property; agree: invariants whose failure
         alone is model drift. Returns the list of events."""
+        if trace_path is None and worker:
+            trace_path, stats = self.run_worker(driver, dargs, out_name="%s.ndjson" % label)
         if trace_path is None:
             trace_path, stats = self.run_harness(driver, dargs, out_name="%s.ndjson" % label, env=driver_env)
         events = [json.loads(x) for x in open(trace_path)]
@@ -199,8 +242,10 @@ class Check:
             if not invs:
                 continue
             for _round in range(40):
+                cs = {"INVS": " ".join(invs)}
+                cs.update(consts_extra or {})
                 r = self.tlc(module, cfg, files=[(trace_path, "trace.ndjson")], timeout=timeout,
-                             consts={"INVS": " ".join(invs)}, workers=workers, heap=heap)
+                             consts=cs, workers=workers, heap=heap)
                 self._account("%s/%s" % (label, phase), r, kind="trace", module=module, cfg=cfg, driver=driver,
                               driver_stats=stats, events=len(events))
                 if r.error:
@@ -222,7 +267,7 @@ class Check:
                 if kf:
                     self.note_known(kf)
                 else:
-                    self.confirm(label, driver, dargs, module, cfg, r.violated, ev, driver_env)
+                    self.confirm(label, driver, dargs, module, cfg, r.violated, ev, driver_env, worker)
                     if len(self.violations) >= 3:
                         break
                 # mask the event and carry on with the rest of the trace
@@ -262,9 +307,10 @@ class Check:
             self.known.append(line)
             print(line, flush=True)
 
-    def confirm(self, label, driver, dargs, module, cfg, inv, ev, driver_env=None):
+    def confirm(self, label, driver, dargs, module, cfg, inv, ev, driver_env=None, worker=False):
         """Re-execute the single failing case against a fresh build and let TLC judge it again."""
         rp = self.replay_record(label, driver, dargs, module, cfg, inv, ev, driver_env)
+        rp["worker"] = worker
         ok, why = run_replay(self, rp)
         if ok is True:
             path = self.save_replay(rp)
@@ -335,7 +381,10 @@ def run_replay(ck, rp):
     """Re-executes one recorded case against the current /repo and asks TLC again.
     Returns (True, text) if TLC rejects it again, (False, text) if it is accepted now."""
     args = list(rp["driver_args"]) + ["-only", str(rp["case"])]
-    path, _ = ck.run_harness(rp["driver"], args, out_name="replay.ndjson", seed=rp["seed"], env=rp.get("driver_env"))
+    if rp.get("worker"):
+        path, _ = ck.run_worker(rp["driver"], args, out_name="replay.ndjson", seed=rp["seed"])
+    else:
+        path, _ = ck.run_harness(rp["driver"], args, out_name="replay.ndjson", seed=rp["seed"], env=rp.get("driver_env"))
     events = [json.loads(x) for x in open(path)]
     if rp.get("variant") is not None:
         events = [e for e in events if e.get("variant") == rp["variant"]]
